@@ -221,6 +221,27 @@ def atom(draw, cfg: Cfg, mode: str, version: int, fields: List[str], lit_ok: boo
 
 @st.composite
 def cond(draw, cfg: Cfg, mode: str, version: int, fields: List[str], depth: int = 0):
+    if depth == 0 and not cfg.allslots and cfg.on("long_chain") and draw(st.sampled_from(range(90))) == 0:
+        # a long chain of conditions under one connective (what `And(c1, ..., cn)` of a contract with many
+        # requirements compiles to), left- or right-nested; one or two of them are governed comparisons
+        n = draw(st.sampled_from([12, 17, 18, 19, 24]))
+        conn = draw(st.sampled_from(["and", "and", "or"]))
+        gov = set(draw(st.lists(st.sampled_from([0, 1, 2, n // 2, n - 3, n - 2, n - 1]), min_size=1, max_size=2)))
+        ops_ = []
+        for i in range(n):
+            if i in gov:
+                ops_.append(draw(atom(cfg, mode, version, fields)))
+            else:
+                ops_.append(["opaque", draw(st.sampled_from(OPAQUE_INT)), draw(st.sampled_from([0, 1, 5])), draw(st.sampled_from(CMP_OPS))])
+        if draw(st.booleans()):
+            tree = ops_[0]
+            for o_ in ops_[1:]:
+                tree = [conn, tree, o_]
+        else:
+            tree = ops_[-1]
+            for o_ in reversed(ops_[:-1]):
+                tree = [conn, o_, tree]
+        return ["chain", tree]
     k = draw(st.integers(0, 9))
     if depth >= 3 or k <= 5:
         return draw(atom(cfg, mode, version, fields, lit_ok=depth > 0))
@@ -520,6 +541,9 @@ class Lower:
             self.cond(c[2])
             self.emit(I("&&" if k == "and" else "||"))
             self.feats.append(k)
+        elif k == "chain":
+            self.cond(c[1])
+            self.feats.append("long_chain")
         elif k == "lit":
             self.emit(I("int", c[1]))
             self.feats.append("literal_operand")
